@@ -176,6 +176,16 @@ func runC01(r *rt.Runner) {
 		"errordict /interrupt { { } loop } put { } loop", "errordict /stackoverflow { 1 } put { 1 } loop",
 		"/CIDInit /ProcSet findresource begin begincmap 100 begincidrange endcidrange 9223372036854775807 begincidrange -1 begincidchar 101 beginbfchar endcmap endcmap",
 		"/CIDInit /ProcSet findresource begin endcmap endcidrange endbfchar usecmap",
+		// bind over procedures that share sub-procedures (a DAG with 2^N paths)
+		"{1} 40 { [0 0] cvx dup 0 3 index put dup 1 3 index put exch pop } repeat bind",
+		"{ add } 64 { dup 2 array astore cvx } repeat pop {1} 30 { dup [ exch dup ] cvx exch pop } repeat bind",
+		"/p {1} def 50 { /p [ /p load dup ] cvx def } repeat /p load bind pop",
+		// error handlers that manipulate the operand stack while a procedure body is open
+		"errordict /syntaxerror { pop pop pop } put 7 8 9 { 1 2 > 3 }",
+		"errordict /syntaxerror { clear } put { 1 2 > 3 } 4",
+		"errordict /syntaxerror { cleartomark } put mark { 1 2 ) 3 } 4",
+		"errordict /typecheck { pop pop pop pop } put { 1 (a) add } exec }",
+		"errordict /undefined { count { pop } repeat } put { { nosuch } exec",
 		"errordict /typecheck get exec", "errordict { exch pop exec } forall", "errordict /handleerror get exec errordict /interrupt get exec",
 		"{ currentfile eexec\n< { end } exec", "currentfile eexec\n7b203c207b20656e64207d2065786563 } exec",
 		"/CIDInit /ProcSet findresource begin begincmap 2 begincidrange <00> <01> 1 (x) <05> 2 endcidrange",
@@ -215,7 +225,8 @@ func runC01(r *rt.Runner) {
 	for k := 0; k < nEx; k++ {
 		r.Case("hostile-eexec", func(c *rt.C) {
 			rng := c.Rand()
-			vocab := []string{"end", "end", "end", "begin", "3 dict begin", "currentdict", "/x 1 def", "currentdict /y 2 put", "dup", "pop", "mark", "cleartomark",
+			vocab := []string{"errordict /syntaxerror { pop pop pop } put", "errordict /undefined { clear } put", "errordict /typecheck { count { pop } repeat } put",
+				"{ <z 1 2 }", "{ 1 2 ) }", "{ { > } }", "7 8 9", "end", "end", "end", "begin", "3 dict begin", "currentdict", "/x 1 def", "currentdict /y 2 put", "dup", "pop", "mark", "cleartomark",
 				"currentfile closefile", "currentfile eexec", "stop", "exit", "{ end } exec", "systemdict begin", "userdict begin", "errordict begin", "count", "exch",
 				"10 string currentfile exch readstring pop", "/RD { string currentfile exch readstring pop } def", "4 RD abcd", "{ end } loop", "2 { end } repeat",
 				"systemdict /end { } put", "1 (a) add", "undefinedname", "} ", "{ ", ")", "<", "9223372036854775807 copy"}
